@@ -2102,14 +2102,17 @@ func marshalTuple(info TypeInfo, value interface{}) ([]byte, error) {
 	return nil, marshalErrorf("cannot marshal %T into %s", value, tuple)
 }
 
-func readBytes(p []byte) ([]byte, []byte) {
+func readBytes(p []byte) ([]byte, []byte, error) {
 	// TODO: really should use a framer
 	size := readInt(p)
 	p = p[4:]
 	if size < 0 {
-		return nil, p
+		return nil, p, nil
 	}
-	return p[:size], p[size:]
+	if int(size) > len(p) {
+		return nil, nil, unmarshalErrorf("unexpected eof: value of %d bytes with %d bytes left", size, len(p))
+	}
+	return p[:size], p[size:], nil
 }
 
 // currently only support unmarshal into a list of values, this makes it possible
@@ -2127,7 +2130,11 @@ func unmarshalTuple(info TypeInfo, data []byte, value interface{}) error {
 			// each element inside data is a [bytes]
 			var p []byte
 			if len(data) >= 4 {
-				p, data = readBytes(data)
+				var err error
+				p, data, err = readBytes(data)
+				if err != nil {
+					return err
+				}
 			}
 			err := Unmarshal(elem, p, v[i])
 			if err != nil {
@@ -2156,7 +2163,11 @@ func unmarshalTuple(info TypeInfo, data []byte, value interface{}) error {
 		for i, elem := range tuple.Elems {
 			var p []byte
 			if len(data) >= 4 {
-				p, data = readBytes(data)
+				var err error
+				p, data, err = readBytes(data)
+				if err != nil {
+					return err
+				}
 			}
 
 			v, err := elem.NewWithError()
@@ -2193,7 +2204,11 @@ func unmarshalTuple(info TypeInfo, data []byte, value interface{}) error {
 		for i, elem := range tuple.Elems {
 			var p []byte
 			if len(data) >= 4 {
-				p, data = readBytes(data)
+				var err error
+				p, data, err = readBytes(data)
+				if err != nil {
+					return err
+				}
 			}
 
 			v, err := elem.NewWithError()
@@ -2342,7 +2357,11 @@ func unmarshalUDT(info TypeInfo, data []byte, value interface{}) error {
 			}
 
 			var p []byte
-			p, data = readBytes(data)
+			var err error
+			p, data, err = readBytes(data)
+			if err != nil {
+				return err
+			}
 			if err := v.UnmarshalUDT(e.Name, e.Type, p); err != nil {
 				return err
 			}
@@ -2385,7 +2404,10 @@ func unmarshalUDT(info TypeInfo, data []byte, value interface{}) error {
 			val := reflect.New(valType)
 
 			var p []byte
-			p, data = readBytes(data)
+			p, data, err = readBytes(data)
+			if err != nil {
+				return err
+			}
 
 			if err := Unmarshal(e.Type, p, val.Interface()); err != nil {
 				return err
@@ -2435,7 +2457,11 @@ func unmarshalUDT(info TypeInfo, data []byte, value interface{}) error {
 		}
 
 		var p []byte
-		p, data = readBytes(data)
+		var err error
+		p, data, err = readBytes(data)
+		if err != nil {
+			return err
+		}
 
 		f, ok := fields[e.Name]
 		if !ok {
